@@ -51,6 +51,38 @@ def handle (op : String) (a : Json) : Except String Json := do
       let c' ← load d ld
       pure (recPaths c')
     return exceptJ pairsJ r
+  | "relocate_many" =>
+    -- one save under `save_dir`, then independent loads of that document under each of `load_dirs`
+    let c : Collection ← fromJson? (← fld a "collection")
+    let sd ← optDir a "save_dir"
+    let lds ← fldArr a "load_dirs"
+    let outs ← lds.mapM fun l => do
+      let ld : Option PPath ← match l with
+        | .null => pure none
+        | v => do pure (some (parse (← v.getStr?)))
+      let r := do
+        let d ← save c sd
+        let c' ← load d ld
+        pure (recPaths c')
+      pure (exceptJ pairsJ r)
+    return arrJ outs
+  | "relocate_chain" =>
+    -- save under s₁, load under l₁, save *the loaded collection* under s₂, load under l₂, …:
+    -- the recording paths after every cycle; the first failure ends the chain
+    let c : Collection ← fromJson? (← fld a "collection")
+    let steps ← fldArr a "steps"
+    let rec go (c : Except Err Collection) : List Json → Except String (List Json)
+      | [] => pure []
+      | st :: rest => do
+        let sd ← optDir st "save_dir"
+        let ld ← optDir st "load_dir"
+        let c' : Except Err Collection := do
+          let c0 ← c
+          let d ← save c0 sd
+          load d ld
+        let tail ← go c' rest
+        pure (exceptJ pairsJ (c'.map recPaths) :: tail)
+    return arrJ (← go (.ok c) steps)
   | _ => .error s!"C18: unknown op {op}"
 
 end SE.Ops.C18
